@@ -2,7 +2,7 @@
 
    Generated/CastSites.v lists, from the Python AST of the tree under test, every expression that narrows a dtype
    (x.float(), x.type(torch.float), dtype=torch.float32, x.type(other.dtype), x.to(other_tensor), ...) as
-   (module, enclosing function, source, occurrences).  This file is the REVIEWED list: each site with the reason why it
+   (module, enclosing function, cast operation without its receiver, occurrences).  This file is the REVIEWED list: each site with the reason why it
    cannot make a total inexact -- or the known finding that says it does.  A site that appears in the tree and is not
    reviewed here is an unproved obligation of C19 (Props/C19_casts.v): e.g. an `input.float()` inserted in `_sum_update`,
    a count created with `.to(target)`, a `cumsum(dtype=torch.int32)`. *)
@@ -22,30 +22,23 @@ Inductive cast_class :=
 
 Definition site := (string * string * string * nat)%type.
 Definition reviewed_casts : list (site * cast_class) := [
-  (("functional/classification/accuracy.py", "_multiclass_accuracy_update", "(rank < k).float()", 1), Mask);
+  (("functional/classification/accuracy.py", "_multiclass_accuracy_update", ".float()", 1), Mask);               (* (rank < k).float() *)
   (("functional/classification/binned_precision_recall_curve.py", "_multiclass_binned_precision_recall_curve_update_memory",
-    "hist.reshape((num_thresholds, num_classes, 2)).transpose(0, 2).type(target.dtype)", 1), CountsKind);
-  (("functional/classification/binned_precision_recall_curve.py", "_multiclass_binned_precision_recall_curve_update_memory",
-    "torch.histc(target.type(torch.float64), bins=num_classes, min=0, max=num_classes).type(target.dtype)", 1), CountsKind);
+    ".type(<tensor>.dtype)", 2), CountsKind);                                                                      (* .type(target.dtype) after target = target.long() *)
   (("functional/classification/binned_precision_recall_curve.py", "_multilabel_binned_precision_recall_curve_update_memory",
-    "hist.reshape((num_thresholds, num_labels, 2)).transpose(0, 2).type(class_counts.dtype)", 1), CountsKind);
-  (("functional/classification/binned_precision_recall_curve.py", "_update",
-    "hist.reshape((num_thresholds, 2)).T.type(target_sum.dtype)", 1), CountsKind);
-  (("functional/classification/confusion_matrix.py", "_binary_confusion_matrix_compute", "cm.to(torch.float)", 3), FinalResult);
-  (("functional/classification/confusion_matrix.py", "_confusion_matrix_compute", "confusion_matrix.to(torch.float)", 3), FinalResult);
-  (("functional/ranking/click_through_rate.py", "_click_through_rate_update", "input.sum(-1).type(torch.float)", 1),
+    ".type(<tensor>.dtype)", 1), CountsKind);                                                                      (* .type(class_counts.dtype) *)
+  (("functional/classification/binned_precision_recall_curve.py", "_update", ".type(<tensor>.dtype)", 1), CountsKind);   (* .type(target_sum.dtype) *)
+  (("functional/classification/confusion_matrix.py", "_binary_confusion_matrix_compute", ".to(torch.float)", 3), FinalResult);
+  (("functional/classification/confusion_matrix.py", "_confusion_matrix_compute", ".to(torch.float)", 3), FinalResult);
+  (("functional/ranking/click_through_rate.py", "_click_through_rate_update", ".type(torch.float)", 2),
    KnownNarrow "C19-ctr-float32-batch-sums");
-  (("functional/ranking/click_through_rate.py", "_click_through_rate_update", "weights.type(torch.float)", 1),
-   KnownNarrow "C19-ctr-float32-batch-sums");
-  (("functional/ranking/frequency.py", "frequency_at_k", "(input < k).float()", 1), Mask);
-  (("functional/ranking/hit_rate.py", "hit_rate", "(rank < k).float()", 1), Mask);
-  (("ranking/retrieval_recall.py", "RetrievalRecall.compute", "(retrieved / self.num_relevant[i]).float()", 1), FinalResult);
-  (("statistical/wasserstein.py", "Wasserstein1D.update", "torch.ones_like(new_samples_dist_1, dtype=torch.float)", 1), UnitWeights);
-  (("statistical/wasserstein.py", "Wasserstein1D.update", "torch.ones_like(new_samples_dist_2, dtype=torch.float)", 1), UnitWeights);
-  (("synclib.py", "send_tensors", "result.to(_transport_dtype(dtypes))", 1), TransportRoundTrip);
-  (("text/word_error_rate.py", "WordErrorRate.__init__", "torch.tensor(0, dtype=torch.float, device=self.device)", 2), StateKind);
-  (("window/mean_squared_error.py", "WindowedMeanSquaredError.merge_state",
-    "torch.zeros(self.num_tasks, merge_max_num_updates, dtype=torch.float32, device=self.device)", 2), StateKind)
+  (("functional/ranking/frequency.py", "frequency_at_k", ".float()", 1), Mask);                                    (* (input < k).float() *)
+  (("functional/ranking/hit_rate.py", "hit_rate", ".float()", 1), Mask);                                           (* (rank < k).float() *)
+  (("ranking/retrieval_recall.py", "RetrievalRecall.compute", ".float()", 1), FinalResult);                        (* (retrieved / num_relevant).float() *)
+  (("statistical/wasserstein.py", "Wasserstein1D.update", "torch.ones_like(dtype=torch.float)", 2), UnitWeights);
+  (("synclib.py", "send_tensors", ".to(<call>)", 1), TransportRoundTrip);                                          (* result.to(_transport_dtype(dtypes)) *)
+  (("text/word_error_rate.py", "WordErrorRate.__init__", "torch.tensor(dtype=torch.float)", 2), StateKind);
+  (("window/mean_squared_error.py", "WindowedMeanSquaredError.merge_state", "torch.zeros(dtype=torch.float32)", 2), StateKind)
 ].
 
 Definition site_eqb (a b : site) : bool :=
